@@ -89,6 +89,7 @@ func (m *DefaultInterfaceMocker) Apply(callback interface{}) {
 	if m.method == "" {
 		panic("method is empty")
 	}
+	m.when = nil
 	m.applyByIFaceMethod(m.ctx, m.iFace, m.method, callback, nil)
 }
 
